@@ -39,10 +39,10 @@ ASSUMPTIONS = [
     "endpoints only acknowledge reliable packets they have actually been shown, each at most once",
     "injected reliable packets get a retry budget of 3 in the exhaustive part so that exhaustion is inside the depth "
     "bound (10, the default, in half of the random walks)",
-    "StartPingCheck.OldestUnacked rewriting and packet-id wrap-around are outside the statement",
+    "what the proxy writes into StartPingCheck.OldestUnacked and packet-id wrap-around are outside the statement (pings are part of the walks' traffic: what happens to the packets that follow them is judged)",
     "tracker windows stay at their default size (no eviction inside a run; C04 covers eviction)",
 ]
-MUST_REACH = {"events": 5000, "acks_translated_after_injection": 50, "acks_for_injected_swallowed": 50,
+MUST_REACH = {"pings_naming_an_id_not_yet_sent": 20, "walks_with_an_endpoint_numbering_from_zero": 4, "states_with_endpoints_numbering_from_zero": 100, "events": 5000, "acks_translated_after_injection": 50, "acks_for_injected_swallowed": 50,
               "drops_with_piggybacked_acks": 20, "proxy_acks_for_dropped_reliable": 20, "resends_observed": 50,
               "budgets_exhausted": 5, "completions_by_ack": 50, "packetack_with_appended_acks": 20, "states": 300,
               "older_ack_after_second_injection": 10, "protocol_level_events": 2000, "taken_reliable_sent_later": 50, "endpoint_retransmissions": 50, "retransmissions_dropped": 5, "walks_with_fractional_resend_interval": 10, "replays_of_handled_messages": 30}
@@ -57,7 +57,8 @@ _eager = UDPMessageDeserializer(settings=_es2)
 
 OUT, IN = Direction.OUT, Direction.IN
 RESEND_EVERY = 3.0
-CURRENT = {"resend_every": RESEND_EVERY}     # the interval the next run's circuit is configured with
+CURRENT = {"resend_every": RESEND_EVERY,      # the interval the next run's circuit is configured with
+           "first_ids": (1, 1)}                # where the viewer / the simulator start numbering their packets
 
 ACTIONS = []
 for side in ("V", "S"):
@@ -68,7 +69,7 @@ for side in ("V", "S"):
         ACTIONS.append(f"{side}P{mode}")
 ACTIONS += ["IOr", "IOu", "IIr", "IIu", "D", "T1", "T3"]
 # walks (not the exhaustive part) also let the proxy TAKE an endpoint's reliable packet and send the copy itself
-WALK_ACTIONS = ACTIONS + ["VT", "ST", "VX", "SX", "VY", "SY", "Th", "VZ", "SZ"]
+WALK_ACTIONS = ACTIONS + ["VT", "ST", "VX", "SX", "VY", "SY", "Th", "VZ", "SZ", "VG", "SG"]
 
 
 class RecTransport(AbstractUDPTransport):
@@ -97,6 +98,8 @@ class Side:
 class Model:
     def __init__(self, tries):
         self.sides = {"V": Side(), "S": Side()}
+        self.sides["V"].next_id, self.sides["S"].next_id = CURRENT["first_ids"]
+        self.first_ids = tuple(CURRENT["first_ids"])
         self.inj = {OUT: set(), IN: set()}           # injected wire ids per direction
         self.used = {OUT: set(), IN: set()}          # every wire id the proxy put on the wire per direction
         self.unacked = {}                            # (direction, wire id) -> [last_sent_time, tries_left, future, name]
@@ -152,8 +155,8 @@ class Run:
     # ---- helpers
     def viol(self, mech, what, **extra):
         self.ok = False
-        self.ctx.violation(mech, what, dict(extra, path=list(self.path), tries=self.model.tries,
-                                            backend=getattr(self, "backend", "circuit")))
+        self.ctx.violation(mech, what, dict(extra, path=list(self.path), tries=self.model.tries, first_ids=list(self.model.first_ids),
+                                            resend_every=self.model.resend_every, backend=getattr(self, "backend", "circuit")))
 
     def take_emissions(self):
         out = self.transport.packets
@@ -192,7 +195,7 @@ class Run:
                 self.viol("ack-for-id-never-sent", "an endpoint was shown an acknowledgement for a packet id it never sent",
                           target=target, ack=a, em=_j(em), sent=sorted(side.sent_ids))
 
-    def endpoint_packet(self, who, reliable, ack_mode, packet_ack_mode=None, resend=False, replay=False):
+    def endpoint_packet(self, who, reliable, ack_mode, packet_ack_mode=None, resend=False, replay=False, ping=False):
         """who in V/S sends its next packet. ack_mode: '-', 'A' (all seen), 'o' (oldest seen).
         packet_ack_mode: None or 'A'/'o'/'m' (m = PacketAck block for the oldest + appended acks for the rest)."""
         m = self.model
@@ -241,7 +244,15 @@ class Run:
         flags = int(PacketFlags.RELIABLE) if reliable else 0
         if resend:
             flags |= int(PacketFlags.RESENT)
-        if packet_ack_mode is None:
+        if ping:
+            # the periodic ping names the oldest id the endpoint still waits to hear about - or, when there is none, the id
+            # it will use NEXT (one the proxy has not seen yet); what the proxy makes of that field is not judged here, what
+            # happens to the packets that follow is
+            oldest = side.own_unacked[0] if side.own_unacked else side.next_id
+            msg = Message("StartPingCheck", Block("PingID", PingID=o & 0xFF, OldestUnacked=oldest), packet_id=o, flags=flags,
+                          acks=tuple(appended))
+            ctx.count("pings_naming_an_id_not_yet_sent" if not side.own_unacked else "pings_naming_an_unacked_id")
+        elif packet_ack_mode is None:
             msg = Message("CompletePingCheck", Block("PingID", PingID=o & 0xFF), packet_id=o, flags=flags, acks=tuple(appended))
         else:
             msg = Message("PacketAck", *[Block("Packets", ID=x) for x in blocks], packet_id=o, flags=flags,
@@ -540,6 +551,8 @@ class Run:
             return self.endpoint_packet(who, True, "A", resend="crossed")
         if action[1] == "Z":
             return self.endpoint_packet(who, False, "A", replay=True)
+        if action[1] == "G":
+            return self.endpoint_packet(who, False, "-", ping=True)
         if action[1] == "P":
             return self.endpoint_packet(who, False, "-", packet_ack_mode=action[2])
         return self.endpoint_packet(who, action[1] == "r", action[2])
@@ -711,6 +724,10 @@ def random_walk(ctx, rng, steps, tries, profile="mixed", backend="circuit"):
     CURRENT["resend_every"] = rng.choice([RESEND_EVERY, RESEND_EVERY, 1.5])
     if CURRENT["resend_every"] != RESEND_EVERY:
         ctx.count("walks_with_fractional_resend_interval")
+    # endpoints number their packets from wherever they like: the viewer from 1, this library's own circuits from 0
+    CURRENT["first_ids"] = rng.choice([(1, 1), (0, 0), (0, 1), (1, 0), (250, 0)])
+    if 0 in CURRENT["first_ids"]:
+        ctx.count("walks_with_an_endpoint_numbering_from_zero")
     try:
         run = (ProtocolRun if backend == "protocol" else Run)(ctx, tries)
         run.backend = backend
@@ -734,6 +751,7 @@ def random_walk(ctx, rng, steps, tries, profile="mixed", backend="circuit"):
     finally:
         clock.uninstall()
         CURRENT["resend_every"] = RESEND_EVERY
+        CURRENT["first_ids"] = (1, 1)
         if run is not None:
             run.close()
 
@@ -759,6 +777,13 @@ def run(ctx):
                             (3, ["IOr", "IOr", "T3", "SPo", "T3", "T3", "T3"]), (3, ["IIr", "T3", "T3", "VrA", "T3", "T3"])):
             replay_path(ctx, path, tries)
             ctx.ev()
+    # the exhaustive part once more, one level shallower, with both endpoints numbering from 0
+    CURRENT["first_ids"] = (0, 0)
+    try:
+        n0 = dfs(ctx, depth - 1, firsts, tries=3)
+        ctx.count("states_with_endpoints_numbering_from_zero", n0)
+    finally:
+        CURRENT["first_ids"] = (1, 1)
     rng = ctx.rng
     for k in range(ctx.pick(12, 400)):
         if ctx.out_of_time():
@@ -785,4 +810,10 @@ def replay(ctx, w):
             asyncio.get_event_loop_policy().get_event_loop()
         except Exception:
             asyncio.set_event_loop(asyncio.new_event_loop())
-        replay_path(ctx, w["path"], w.get("tries", 3), backend=w.get("backend", "circuit"))
+        CURRENT["first_ids"] = tuple(w.get("first_ids", (1, 1)))
+        CURRENT["resend_every"] = w.get("resend_every", RESEND_EVERY)
+        try:
+            replay_path(ctx, w["path"], w.get("tries", 3), backend=w.get("backend", "circuit"))
+        finally:
+            CURRENT["first_ids"] = (1, 1)
+            CURRENT["resend_every"] = RESEND_EVERY
